@@ -42,6 +42,15 @@ def generated_corpus2():
     return out
 
 
+def generated_corpus3():
+    out = []
+    r = random.Random(3000)
+    for _ in range(24):
+        src, fam = progen.program3(r)
+        out.append((oracles.sha(src), src, fam))
+    return out
+
+
 def example_corpus():
     return [(oracles.sha(s), s, "repo-example") for s in oracles.repo_examples() if oracles.runnable(s)]
 
@@ -78,7 +87,7 @@ def key(sha, opts, extra=""):
 def behaviour_cases(ctx, quick_n):
     gen = generated_corpus()
     ex = example_corpus()
-    items = pick(gen, ctx, quick_n) + pick(generated_corpus2(), ctx, quick_n // 2) + pick(ex, ctx, quick_n // 3)
+    items = pick(gen, ctx, quick_n) + pick(generated_corpus2(), ctx, quick_n // 2) + pick(generated_corpus3(), ctx, 8) + pick(ex, ctx, quick_n // 3)
     cases = []
     r = ctx.rng("opts")
     for (sha, src, fam) in items:
@@ -163,7 +172,7 @@ def rules_suite(ctx, quick_n=120):
     s = Suite("C02-rule-sweep", kind="oracle")
     base = baseline("C02")
     rules = rule_names()
-    items = pick(generated_corpus(), ctx, quick_n) + pick(generated_corpus2(), ctx, quick_n // 2) + pick(example_corpus(), ctx, quick_n // 2)
+    items = pick(generated_corpus(), ctx, quick_n) + pick(generated_corpus2(), ctx, quick_n // 2) + pick(generated_corpus3(), ctx, 8) + pick(example_corpus(), ctx, quick_n // 2)
     results = oracles.pmap(task_rules, [(src, rules, fam == "repo-example") for (_sha, src, fam) in items])
     fired = {}
     for (sha, src, fam), res in zip(items, results):
